@@ -4,12 +4,14 @@ All harness crates live in /verif/kani (offline workspace, target dir /verif/.ta
 #[path]/include! the REAL source files of /repo, so they are rebuilt from the working tree.
 """
 import os
+import sys
 import re
 import shutil
 import subprocess
 import time
 
 ROOT = os.path.dirname(os.path.dirname(os.path.abspath(__file__)))
+sys.path.insert(0, os.path.join(ROOT, 'tools'))
 KDIR = os.path.join(ROOT, 'kani')
 REPO = os.environ.get('VERIF_REPO', '/repo')
 TARGET = os.path.join(ROOT, '.target')
@@ -64,6 +66,16 @@ def run_harness(h, with_playback=False):
     if bad:
         res['detail'] = bad
         return res
+    if h.get('pre_extract'):
+        # harness crates that verify text extracted mechanically from /repo: regenerate it now
+        import extract
+        tpl, outp = h['pre_extract']
+        try:
+            extract._SRC_CACHE.clear()
+            extract.expand(os.path.join(ROOT, tpl), os.path.join(ROOT, outp))
+        except extract.Undecided as e:
+            res['detail'] = 'extraction for the bounded harness failed: %s' % e
+            return res
     flags = list(h.get('flags') or [])
     if with_playback and h.get('decode'):
         flags += ['-Z', 'concrete-playback', '--concrete-playback=print']
